@@ -225,13 +225,41 @@ def run(tier):
             chk.violation("C08|evaluation|expected=%s found=%s" % (want, ",".join(sorted(found)) + ("+self" if selfref else "")),
                           "the evaluated document carries %s (self-reference: %s) but the use is bound to the %s binder: %r" % (
                               sorted(found), selfref, want, text[:200]), dict(payload, doc=f["doc"]))
-    chk.cov["evaluations"] = len(progs)
-    chk.cov["distinct_nontrivial"] = nontrivial
+    # evaluation honours the binding when caller and callee use the same names: the DynScope family, denotation by Den.tla
+    # (lexical environments) against the evaluated document
+    import absdoc
+    import c02
+    rd = run_tlc("DenMC", "Den_dynscope.cfg", workers=4, timeout=900, java_opts=["-Xss512m"])
+    chk.add_tlc(rd)
+    if not rd.ok:
+        raise common.ToolError("DenMC failed on dynscope: %s" % (rd.violation or "")[:600])
+    members = [c for c in rd.cases if c["defined"]]
+    drps = [render.render_program(c["prog"], style=(i + common.seed()) % 4) for i, c in enumerate(members)]
+    dcases = [{"main": rp_["main"], "files": rp_["files"], "want": {"doc": True}} for rp_ in drps]
+    dobs = run_oalv_parallel("compile", dcases, jobs=8)
+    dsame = 0
+    for c, hc, o in zip(members, dcases, dobs):
+        if o.get("outcome") != "ok" or o.get("emit", {}).get("result") != "ok":
+            continue
+        diffs = absdoc.compare_docs(absdoc.expected_doc(c), absdoc.abstract_doc(o["doc"], c02.K))
+        if diffs:
+            chk.violation("C08|evaluation|caller-callee-names|%s" % diffs[0][0], "the evaluated document is not the one the lexical binding gives (%s): %r" % (
+                diffs[0][1][:200], hc["files"][hc["main"]][:200]), {"prog_text": hc["files"], "differences": diffs[:4]})
+        else:
+            dsame += 1
+            chk.cov["traces_validated_against_impl"] += 1
+    if len(members) < 30 or (dsame == 0 and not chk.violations):
+        raise common.ToolError("DynScope family: %d members defined, %d compared - the evaluation part would be vacuous" % (len(members), dsame))
+    chk.notes["dynscope_members_equal_to_denotation"] = "%d/%d" % (dsame, len(members))
+    chk.cov["evaluations"] = len(progs) + len(members)
+    chk.cov["distinct_nontrivial"] = nontrivial + len(members)
     chk.notes["dynamic_agreement_checked"] = dyn
     chk.cov["exhaustive"] = True
     chk.cov["rule"] = ("the Scopes family of ResolveMC.tla: contested name in {n, concat} x unqualified import x qualified import x declaration (absent, before, "
                        "after the use) x parameter name x rec binder name x use site (top level, function body, rec body, rec in function body, qualified); "
-                       "programs are distinct records; non-trivial = every use has a binder (a complete binding table is compared)")
+                       "programs are distinct records; non-trivial = every use has a binder (a complete binding table is compared); plus the DynScope family of Families.tla "
+                       "(callee parameters a, b[, c] x caller binder in {a, b, z} as function parameter or rec binder x argument patterns x local/imported callee), whose "
+                       "evaluated document must equal the denotation Den.tla computes with lexical environments")
     if progs:
         chk.sample({"program": rendered[len(progs) // 3]["files"][BASE + "m1.oal"], "spec_table_main": progs[len(progs) // 3]["mods"]["m1"]["table"][:4],
                     "spec_err": progs[len(progs) // 3]["mods"]["m1"]["err"]})
